@@ -241,7 +241,9 @@ func main() {
 						copyState(k - 1)
 					}
 					st.cur = c
-					if *inject == k {
+					if *inject == k && *short && !((nr == 1 || nr == 18) && c.Len > 1) {
+						// a short count only makes sense for a write: leave any other call alone
+					} else if *inject == k {
 						st.injected = true
 						st.injRet = -int64(*errno)
 						if *short && (nr == 1 || nr == 18) && c.Len > 1 {
